@@ -1003,7 +1003,12 @@ impl fmt::Display for Type1<'_> {
     let spaced = self
       .operator
       .as_ref()
-      .is_some_and(|o| !(is_literal(&self.type2) && is_literal(&o.type2)));
+      .is_some_and(|o| {
+        // a control operator name would absorb a following number or name
+        // ("b64'YQ'.ne-2" reads as the control ".ne-2")
+        matches!(o.operator, RangeCtlOp::CtlOp { .. })
+          || !(is_literal(&self.type2) && is_literal(&o.type2))
+      });
 
     if spaced {
       t1_str.push(' ');
